@@ -17,7 +17,7 @@ CHECKS = {
  "C08": ("generated on_run scripts with message arrivals around their await points; oracle at every on_run progress event: no accepted-unhandled message, no returned kill; Ok(true) re-arms, Ok(false) silences for good without ending the actor, Err -> on_stop(false)", "5/C08"),
  "C09": ("generated capacities/senders/gates; occupancy lower and upper bounds recomputed from the trace at every event and every quiescent instant (accepted <= capacity; a waiting sender implies a full mailbox); Send errors only on ending actors", "5/C09"),
  "C10": ("generated timeout values (0..40 ms odd/even, huge) vs natural completion instants; all comparisons in exact virtual milliseconds: Ok by the deadline at the completion instant, Timeout exactly at the deadline and only if nothing completed/failed strictly before, other failures at the instant of their cause; is_retryable on every error value seen", "5/C10"),
- "C11": ("generated probes of identity/is_alive/upgrade through every derived handle kind at every lifecycle phase; oracle from the trace (phase known) and the harness-side strong-handle count", "5/C11"),
+ "C11": ("generated probes of identity/is_alive/upgrade through every derived handle kind at every lifecycle phase; oracle from the trace (phase known) and the harness-side strong-handle count; plus a generated id race (2-16 threads x 1-300 spawns) and a real-thread supplement (identity through every handle, is_alive before the actor began to end / after its JoinHandle resolved, upgrade while a strong handle is provably held throughout)", "5/C11"),
 }
 
 CHECKS.update({
